@@ -552,8 +552,9 @@ package logql
 //@       as[*BytesFilter](leafOf(ret0, rest_called)).Label == Label(tokText(p, old(p.pos))) &&
 //@       as[*BytesFilter](leafOf(ret0, rest_called)).Op == predOp(tokType(p, old(p.pos)+1)) &&
 //@       as[*BytesFilter](leafOf(ret0, rest_called)).Value == byt_r0
+//@   ensures[ip-filter-accepts-the-logql-spelling] old(peekTok(p)) == lexer.Ident && (tokType(p, old(p.pos)+1) == lexer.Eq || tokType(p, old(p.pos)+1) == lexer.CmpEq || tokType(p, old(p.pos)+1) == lexer.NotEq) && tokType(p, old(p.pos)+2) == lexer.IP && tokType(p, old(p.pos)+3) == lexer.OpenParen && tokType(p, old(p.pos)+4) == lexer.String && tokType(p, old(p.pos)+5) == lexer.CloseParen ==> ret1 == nil || rest_called
 //@   ensures[ip-filter] ret1 == nil && old(peekTok(p)) == lexer.Ident && tokType(p, old(p.pos)+2) == lexer.IP ==>
-//@       typeis[*IPFilter](leafOf(ret0, rest_called)) && (tokType(p, old(p.pos)+1) == lexer.CmpEq || tokType(p, old(p.pos)+1) == lexer.NotEq) &&
+//@       typeis[*IPFilter](leafOf(ret0, rest_called)) && (tokType(p, old(p.pos)+1) == lexer.Eq || tokType(p, old(p.pos)+1) == lexer.CmpEq || tokType(p, old(p.pos)+1) == lexer.NotEq) &&
 //@       as[*IPFilter](leafOf(ret0, rest_called)).Label == Label(tokText(p, old(p.pos))) &&
 //@       as[*IPFilter](leafOf(ret0, rest_called)).Op == predOp(tokType(p, old(p.pos)+1)) &&
 //@       tokType(p, old(p.pos)+3) == lexer.OpenParen && tokType(p, old(p.pos)+4) == lexer.String && tokType(p, old(p.pos)+5) == lexer.CloseParen &&
